@@ -411,6 +411,8 @@ class FnView:
         raise TypeError(op)
 
     def _const_expr(self, c):
+        if "v" in c and self.b.const_ty(c) == "bool":
+            return ("k", "true" if int(c["v"]) else "false")
         if "v" in c:
             d = self.b.const_def(c, "def")
             if d is not None:
